@@ -172,11 +172,13 @@ PROPS = {
                         "the codec round trip holds up to the decoder's size limit (10 MiB, introduced by the C14 repair); beyond it the decoder returns an error, never a truncated message (C18_codec_oversize)"],
     },
     "C19": {
-        "modules": ["SamlModel.Props.C19"],
-        "translated": ["ValidateIssuer", "ValidateIssuerPath", "devLocalAllowed", "hasQueryOrFragment", "dynamicIssuer"],
+        "modules": ["SamlModel.Props.C19", "SamlModel.Props.C19Gen"],
+        "translated": ["ValidateIssuer", "ValidateIssuerPath", "devLocalAllowed", "hasQueryOrFragment", "dynamicIssuer", "hostFromForwarded",
+                       "issuerFromForwardedOrHost_validate", "issuerFromForwardedOrHost_derive", "StaticIssuer_validate", "StaticIssuer_derive"],
         "trusted_base": COMMON_TRUST + [
             "net/url.Parse is an oracle (Ora.urlParse: Scheme, Host, Hostname(), Fragment, RawQuery, ForceQuery as net/url reports them); the harness checks the implementation against an independent RFC 3986 splitter that does not use net/url",
-            "muhlemmer/httpforwarded (Forwarded header parsing) and the closure of issuerFromForwardedOrHost are not translated: fingerprinted and observed through the served metadata's entityID against an RFC 7239 reading of the headers",
+            "the two closure levels of issuerFromForwardedOrHost and StaticIssuer are translated separately on every run (go2lean FuncSpec.Part: _validate = the checks made when NewProvider calls the factory, _derive = the per-request closure), hostFromForwarded as a whole; what the request contributes is typed oracles (Ora.headerValues = r.Header[name], Ora.reqHost = r.Host) and C19_generated_derive / C19_generated_derive_reads_only are stated for every answer of them; muhlemmer/httpforwarded.ParseParameter (RFC 7239 syntax) is a library oracle (Ora.forwardedParse): 'first host' in the theorems is the first value it returns; the harness additionally compares hand-written RFC 7239 expectations through the served metadata's entityID",
+            "still fingerprinted for C19: NewProvider (passes conf.Insecure to the factory), IssuerInterceptor.setIssuerCtx / IssuerFromContext (the derived issuer reaches the handlers through the request context)",
         ],
         "assumptions": ["scheme comparison follows net/url (scheme is lower-cased by the parser; schemes are case-insensitive per RFC 3986)"],
     },
